@@ -116,7 +116,7 @@ func Run(prop string) func(c *hl.Ctx) error {
 		if prop == "C36" {
 			RunImports(c, r, c.Pick(300, 20000))
 			// chained histories (the returned graph is the next input; operations and their inverses)
-			for h := 0; h < c.Pick(120, 3000); h++ {
+			for h := 0; h < c.Pick(180, 3000); h++ {
 				gen := &Gen{R: r, MaxTop: 3, MaxDepth: 2, Boards: h%4 == 0, Tricky: h%4 == 3, MultiRef: h%2 == 1, Extras: h%3 == 0, Count: c.Count}
 				text := gen.Diagram()
 				rec, err := pool.History(histReq{Text: text, Seed: r.Int63(), N: 3 + r.Intn(12)})
@@ -127,7 +127,7 @@ func Run(prop string) func(c *hl.Ctx) error {
 				c.Count("hist:chained")
 			}
 		}
-		nh := c.Pick(map[string]int{"C36": 150, "C37": 200, "C38": 220, "C39": 220, "C40": 220, "C41": 130}[prop],
+		nh := c.Pick(map[string]int{"C36": 200, "C37": 300, "C38": 330, "C39": 330, "C40": 320, "C41": 190}[prop],
 			map[string]int{"C36": 1500, "C37": 2500, "C38": 2500, "C39": 2500, "C40": 2500, "C41": 1200}[prop])
 		for h := 0; h < nh; h++ {
 			gen := &Gen{R: r, MaxTop: 4, MaxDepth: 2, Boards: prop == "C41" || h%3 == 0, ForceBoard: prop == "C41",
